@@ -243,6 +243,28 @@ meet_laws!(meet_laws_a_o1, 1, 0, 4);
 meet_laws!(meet_laws_b_o1, 1, 4, 7);
 meet_laws!(meet_laws_c_o1, 1, 7, 10);
 
+/// meet of struct types (width and depth subtyping: the struct with more fields is the smaller type)
+#[kani::proof]
+#[kani::unwind(8)]
+#[kani::stub(alloc::fmt::format, crate::verif_common::stub_format)]
+pub fn meet_laws_structs() {
+    const S: [Ty; 4] = [T_ST_A_INT, T_ST_AB, T_ST_A_U, T_ST_AB_ANY];
+    set_order(0);
+    let ts: [Type; 4] = core::array::from_fn(|i| real(S[i]));
+    let mut i = 0;
+    while i < 4 {
+        let mut j = 0;
+        while j < 4 {
+            let c = ts[i].conjoin(&ts[j]);
+            assert!(c.matches(&ts[i]));
+            assert!(c.matches(&ts[j]));
+            j += 1;
+        }
+        i += 1;
+    }
+    kani::cover!(true);
+}
+
 /// soundness for values: A matches B  =>  every witness value of A belongs to B, judged by its
 /// contents (in_ty) and by its runtime type tag (as_type().matches)
 const S_VAL: [Ty; 14] = [T_INT, T_FLOAT, T_STR, T_U_INT_FLOAT, T_U_INT_STR, T_ARR_INT, T_ARR_U_INT_FLOAT, T_ARR_ANY, T_ARR_NEVER, T_TUP_INT_INT, T_TUP_U_INT, T_ST_AB, T_ST_A_U, T_MUT_INT];
